@@ -1843,7 +1843,22 @@ fn pep440_spellings_family(out: &mut Out) {
     }
 }
 
+/// helper mode for the process-level families: `cex verdict <semver|pep440>` reads one version text per line on stdin and prints, per
+/// line, `A <printed form>` when the library parser accepts it and `R` otherwise
+fn verdict_mode(fmt: &str) {
+    use std::io::BufRead;
+    for line in std::io::stdin().lock().lines() {
+        let s = line.unwrap_or_default();
+        let r = if fmt == "semver" { SemVer::from_str(&s).map(|v| v.to_string()).ok() } else { PEP440::from_str(&s).map(|v| v.to_string()).ok() };
+        match r { Some(t) => println!("A {t}"), None => println!("R") }
+    }
+}
+
 fn main() {
+    if std::env::args().nth(1).as_deref() == Some("verdict") {
+        verdict_mode(&std::env::args().nth(2).unwrap_or_default());
+        return;
+    }
     let fam = std::env::args().nth(1).unwrap_or_default();
     let thorough = std::env::args().nth(2).as_deref() == Some("thorough");
     let seed: u64 = std::env::args().nth(3).and_then(|s| s.parse().ok()).unwrap_or(0);
